@@ -167,6 +167,8 @@ pub enum Op {
     RenameCol { from: String, to: String },
     UpdateConfig { key: String, value: Option<String> },
     Restore { version: u64 },
+    CreateVectorIndex { partitions: usize, cosine: bool },
+    CreateFtsIndex,
 }
 
 impl Op {
@@ -193,6 +195,8 @@ impl Op {
             Self::RenameCol { .. } => "rename_col",
             Self::UpdateConfig { .. } => "update_config",
             Self::Restore { .. } => "restore",
+            Self::CreateVectorIndex { .. } => "create_vector_index",
+            Self::CreateFtsIndex => "create_fts_index",
         }
     }
     /// short printable form (data elided)
@@ -232,6 +236,8 @@ impl Op {
             Self::RenameCol { from, to } => format!("rename_column({} -> {})", from, to),
             Self::UpdateConfig { key, value } => format!("update_config({}={:?})", key, value),
             Self::Restore { version } => format!("restore({})", version),
+            Self::CreateVectorIndex { partitions, cosine } => format!("create_index(vec, IVF_FLAT, partitions={}, metric={})", partitions, if *cosine { "cosine" } else { "l2" }),
+            Self::CreateFtsIndex => "create_index(txt, Inverted)".to_string(),
         }
     }
 }
@@ -372,6 +378,15 @@ pub async fn exec_op(ctx: &Ctx, ds: &mut Dataset, st: &TableState, op: &Op) -> R
             *ds = old;
             Ok(())
         }
+        Op::CreateVectorIndex { partitions, cosine } => {
+            let metric = if *cosine { lance_linalg::distance::MetricType::Cosine } else { lance_linalg::distance::MetricType::L2 };
+            let params = lance::index::vector::VectorIndexParams::ivf_flat(*partitions, metric);
+            ds.create_index(&["vec"], IndexType::Vector, Some("vec_idx".to_string()), &params, true).await
+        }
+        Op::CreateFtsIndex => {
+            let ip = lance_index::scalar::InvertedIndexParams::default().stem(false).remove_stop_words(false).ascii_folding(false).lower_case(true).with_position(true);
+            ds.create_index(&["txt"], IndexType::Inverted, Some("txt_idx".to_string()), &ip, true).await
+        }
     }
 }
 
@@ -489,6 +504,16 @@ pub fn model_apply(st: &mut TableState, op: &Op, history: &BTreeMap<u64, TableSt
         Op::Restore { version } => {
             let old = history.get(version).ok_or("no such version")?;
             *st = old.clone();
+            Ok(())
+        }
+        Op::CreateVectorIndex { cosine, .. } => {
+            st.indices.retain(|i| i.name != "vec_idx");
+            st.indices.push(ModelIndex { name: "vec_idx".into(), column: "vec".into(), kind: if *cosine { "IvfFlatCosine".into() } else { "IvfFlatL2".into() } });
+            Ok(())
+        }
+        Op::CreateFtsIndex => {
+            st.indices.retain(|i| i.name != "txt_idx");
+            st.indices.push(ModelIndex { name: "txt_idx".into(), column: "txt".into(), kind: "Inverted".into() });
             Ok(())
         }
     }
